@@ -15,7 +15,7 @@ MOD = "btmc.props.c06"
 
 TARGETS_FLAT = [{}, {"a": 1.0}, {"a": 0.5, "b": 0.5}, {"a": 0.25, "b": 0.25, "c": 0.5}, {"b": -0.5, "c": 0.5}, {"c": 0.25}, {"a": -0.5}, {"a": 0.5, "b": 0.0}]
 TARGETS_NESTED = [{}, {"s1": 0.5, "b": 0.25}, {"s1": 0.25, "s2": 0.5}, {"s2": 1.0}, {"b": 0.5}, {"s1": 1.0}, {"s1": -0.25, "b": 0.5}]
-CASHES = [None, 0.0, 0.25, 0.5]
+CASHES = [None, 0.0, 0.25, 0.5, 1.0]  # (1.0: everything to cash - every target is zero)
 
 
 def unit_cost(p, m, spread, fee, q):
